@@ -3,8 +3,12 @@ import Amgcl.Model.IOCommon
 /-!
 # Binary matrix files (`amgcl/io/binary.hpp`) — byte-level model, core Lean only
 
-Instantiation modelled: `SizeT = size_t`, `Ptr = Col = ptrdiff_t` (8 bytes, little endian, two's complement — what
-`examples/mm2bin.cpp` writes), `Val` = `vsz` raw bytes decoded by an abstract `dec`.
+Instantiation modelled: `SizeT = size_t`, `Ptr = ptrdiff_t` (8 bytes, little endian, two's complement — what
+`examples/mm2bin.cpp` writes), `Col` = `csz` raw bytes decoded to a signed index by an abstract `cdec` (`ptrdiff_t`:
+`csz = 8`, `cdec = decS64`; `int`: `csz = 4`, `cdec = decS32`), `Val` = `vsz` raw bytes decoded by an abstract `dec`
+(`double`: 8, `std::complex<double>`: 16, `float`: 4).  `sizeof(Col)` and `sizeof(Val)` are independent parameters:
+the value block starts `nnz · csz` bytes behind the column block and a row range that starts at stored entry `k`
+reads its columns at offset `k · csz` of the column block and its values at offset `k · vsz` of the value block.
 
 File layout written by `mm2bin`:   `n | ptr[0..n] | col[0..nnz) | val[0..nnz)`   (sparse),
 `n | m | val[0..n·m)` (dense).
@@ -38,6 +42,20 @@ def toS64 (u : Nat) : Int := if u < two63 then (u : Int) else (u : Int) - (two64
 /-- `ptrdiff_t → size_t` -/
 def ofS64 (i : Int) : Nat := (i % (two64 : Int)).toNat
 def encS64 (i : Int) : Bytes := enc64 (ofS64 i)
+/-- an 8-byte block as `ptrdiff_t` -/
+def decS64 (bs : Bytes) : Int := toS64 (leVal bs)
+
+def two32 : Nat := 4294967296
+def two31 : Nat := 2147483648
+/-- the 4 little-endian bytes of `x mod 2^32` -/
+def enc32 (x : Nat) : Bytes := (List.range 4).map (fun k => x / 256 ^ k % 256)
+/-- `uint32_t → int` -/
+def toS32 (u : Nat) : Int := if u < two31 then (u : Int) else (u : Int) - (two32 : Int)
+/-- `int → uint32_t` -/
+def ofS32 (i : Int) : Nat := (i % (two32 : Int)).toNat
+def encS32 (i : Int) : Bytes := enc32 (ofS32 i)
+/-- a 4-byte block as `int` -/
+def decS32 (bs : Bytes) : Int := toS32 (leVal bs)
 
 /-- `f.seekg(pos); f.read(buf, len)` where `pos` is a `size_t` value -/
 def readAt (file : Bytes) (pos len : Nat) : Option Bytes :=
@@ -74,7 +92,8 @@ def ptrValid (b : Int) (ptr : List Int) (nnz : Int) : Bool :=
 
 /-- `read_crs` behind the row-range precondition: `ptr.resize`, the three seeks/reads, (repaired: validation),
 the shift by `ptr.front()`, `col/val.resize`, two more reads, the sort loop -/
-def binCrsBody (fixed : Bool) (memLimit : Nat) (vsz : Nat) (dec : Bytes → V) (file : Bytes) (n : Nat) (b e : Int) :
+def binCrsBody (fixed : Bool) (memLimit : Nat) (csz : Nat) (cdec : Bytes → Int) (vsz : Nat) (dec : Bytes → V)
+    (file : Bytes) (n : Nat) (b e : Int) :
     Outcome (RawCRS V) :=
   let chunk := e - b
   -- `ptr.resize(chunk + 1)`
@@ -104,18 +123,20 @@ def binCrsBody (fixed : Bool) (memLimit : Nat) (vsz : Nat) (dec : Bytes → V) (
   | some back =>
   -- `col.resize(ptr.back()); val.resize(ptr.back())`
   if back < 0 then .error
-  else if back * 8 > (memLimit : Int) then .error
+  else if back * csz > (memLimit : Int) then .error
   else if back * vsz > (memLimit : Int) then .error
   else
   let cnt := back.toNat
   let colBeg := (8 + (n + 1) * 8) % two64
-  match readAt file ((colBeg + nnzBeg * 8) % two64) (cnt * 8) with
+  -- `f.seekg(col_beg + nnz_beg * sizeof(Col)); read(f, col)`
+  match readAt file ((colBeg + nnzBeg * csz) % two64) (cnt * csz) with
   | none => .error
   | some cb =>
-  match readAt file ((colBeg + ofS64 nnz * 8 + nnzBeg * vsz) % two64) (cnt * vsz) with
+  -- `f.seekg(col_beg + nnz * sizeof(Col) + nnz_beg * sizeof(Val)); read(f, val)`
+  match readAt file ((colBeg + ofS64 nnz * csz + nnzBeg * vsz) % two64) (cnt * vsz) with
   | none => .error
   | some vb =>
-  let col := (splitEvery 8 cnt cb).map (fun x => toS64 (leVal x))
+  let col := (splitEvery csz cnt cb).map cdec
   let val := (splitEvery vsz cnt vb).map dec
   match sortRows wrap32 ptr (col.zip val) with
   | none => .oob
@@ -123,14 +144,14 @@ def binCrsBody (fixed : Bool) (memLimit : Nat) (vsz : Nat) (dec : Bytes → V) (
 
 /-- `io::read_crs(fname, n, ptr, col, val, row_beg, row_end)` (binary.hpp:69-122).  The repaired code also
 requires `(ptrdiff_t) n >= 0`, which the other three conditions of `rowRange true` imply. -/
-def binReadCrs (fixed : Bool) (memLimit : Nat) (vsz : Nat) (dec : Bytes → V) (file : Bytes) (rowBeg rowEnd : Int) :
-    Outcome (RawCRS V) :=
+def binReadCrs (fixed : Bool) (memLimit : Nat) (csz : Nat) (cdec : Bytes → Int) (vsz : Nat) (dec : Bytes → V)
+    (file : Bytes) (rowBeg rowEnd : Int) : Outcome (RawCRS V) :=
   match readAt file 0 8 with
   | none => .error
   | some nb =>
     match rowRange fixed (toS64 (leVal nb)) rowBeg rowEnd with
     | none => .error
-    | some (b, e) => binCrsBody fixed memLimit vsz dec file (leVal nb) b e
+    | some (b, e) => binCrsBody fixed memLimit csz cdec vsz dec file (leVal nb) b e
 
 /-- `io::read_dense(fname, n, m, v, row_beg, row_end)` (binary.hpp:133-156) -/
 def binReadDense (fixed : Bool) (memLimit : Nat) (vsz : Nat) (dec : Bytes → V) (file : Bytes) (rowBeg rowEnd : Int) :
@@ -160,9 +181,9 @@ def binReadDense (fixed : Bool) (memLimit : Nat) (vsz : Nat) (dec : Bytes → V)
 
 /-! ### writers: the `io::write` sequences of `examples/mm2bin.cpp` -/
 
-/-- `write(f, rows); write(f, ptr); write(f, col); write(f, val)` -/
-def binWriteRaw (enc : V → Bytes) (A : RawCRS V) : Bytes :=
-  enc64 A.nrows ++ (A.ptr.flatMap encS64 ++ (A.col.flatMap encS64 ++ A.val.flatMap enc))
+/-- `write(f, rows); write(f, ptr); write(f, col); write(f, val)` (`cenc` = the bytes of one `Col`) -/
+def binWriteRaw (cenc : Int → Bytes) (enc : V → Bytes) (A : RawCRS V) : Bytes :=
+  enc64 A.nrows ++ (A.ptr.flatMap encS64 ++ (A.col.flatMap cenc ++ A.val.flatMap enc))
 
 /-- a `CRS` row with its column indices as the signed C++ index type -/
 def intRow (r : Row V) : List (Int × V) := r.map (fun cv => ((cv.1 : Int), cv.2))
@@ -170,7 +191,7 @@ def intRow (r : Row V) : List (Int × V) := r.map (fun cv => ((cv.1 : Int), cv.2
 /-- the raw arrays of a `CRS` (what `mm2bin` holds after reading) -/
 def RawCRS.ofCRS (A : CRS V) : RawCRS V := RawCRS.ofRows A.nrows A.ncols (A.rows.toList.map intRow)
 
-def binWriteCrs (enc : V → Bytes) (A : CRS V) : Bytes := binWriteRaw enc (RawCRS.ofCRS A)
+def binWriteCrs (cenc : Int → Bytes) (enc : V → Bytes) (A : CRS V) : Bytes := binWriteRaw cenc enc (RawCRS.ofCRS A)
 
 /-- `write(f, rows); write(f, cols); write(f, val)` -/
 def binWriteDense (enc : V → Bytes) (D : RawDense V) : Bytes :=
